@@ -103,6 +103,13 @@ fn cases(dir: &str) -> Vec<Case> {
         a.extend(sv(&extra));
         add(&format!("test:dir:{}", fname), a, "", cmp);
     }
+    // a test file whose expectations are not status words (several different wrong words in one case: which one is reported?)
+    let tbad = w("t/bad/r5_tests.yaml", "- name: one\n  input: {a: 1, b: 1, l: [{x: 1}]}\n  expectations:\n    rules:\n      ra: PASSED\n      rb: FAILED\n      rc: skipped\n      rd: Pass\n      re: ok\n      rf: PASS\n");
+    for (fname, extra, cmp) in [("plain", vec![], "lines"), ("json", vec!["-o", "json"], "bytes"), ("yaml", vec!["-o", "yaml"], "bytes"), ("junit", vec!["-o", "junit"], "bytes")] {
+        let mut a = sv(&["test", "-r", &r5, "-t", &tbad]);
+        a.extend(sv(&extra));
+        add(&format!("test:bad-expectation-words:{}", fname), a, "", cmp);
+    }
     for (f, flag) in [("json", "--print-json"), ("yaml", "--print-yaml")] {
         add(&format!("parse-tree:{}", f), sv(&["parse-tree", "-r", &r5, flag]), "", "bytes");
         add(&format!("parse-tree:cfn:{}", f), sv(&["parse-tree", "-r", &cr, flag]), "", "bytes");
@@ -196,8 +203,64 @@ fn normalise(out: &str, cmp: &str) -> Vec<String> {
 pub fn run(tier: &str) -> i32 {
     let thorough = tier == "thorough";
     let mut rep = Report::new("C05", tier);
+    // colours on for everything evaluated inside this process (child processes get a cleared environment and NO_COLOR)
+    std::env::set_var("CLICOLOR_FORCE", "1");
+    std::env::remove_var("NO_COLOR");
     let dir = reset_dir("c05");
     let cs = cases(&dir);
+    // ---- mixed history inside one process, before anything else has run in it: console commands, then structured ones,
+    //      then the console commands again - the lines they printed the first time (colour escapes included)
+    let mut mixed = Acc::new();
+    let mut mixed_runs = 0u64;
+    {
+        let r5 = put("c05m/r5.guard", RULES5);
+        let d0 = put("c05m/d0.json", DATA[0]);
+        let d1 = put("c05m/d1.json", DATA[1]);
+        let cr = put("c05m/cfn.guard", CFN_RULES);
+        let cd = put("c05m/cfn.yaml", CFN_DATA);
+        let tf = put("c05m/r5_tests.yaml", TEST_FILE);
+        let console: Vec<Vec<String>> = vec![
+            sv(&["validate", "-r", &r5, "-d", &d0]),
+            sv(&["validate", "-r", &r5, "-d", &d1, "-S", "all"]),
+            sv(&["validate", "-r", &r5, "-d", &d1, "-v"]),
+            sv(&["validate", "-r", &cr, "-d", &cd]),
+            sv(&["validate", "-r", &cr, "-d", &cd, "-S", "all", "-o", "yaml"]),
+            sv(&["test", "-r", &r5, "-t", &tf]),
+            sv(&["test", "-r", &r5, "-t", &tf, "-v"]),
+        ];
+        let structured: Vec<Vec<String>> = vec![
+            sv(&["validate", "-r", &r5, "-d", &d0, "--structured", "-o", "json", "-S", "none"]),
+            sv(&["validate", "-r", &cr, "-d", &cd, "--structured", "-o", "sarif", "-S", "none"]),
+            sv(&["validate", "-r", &r5, "-d", &d1, "--structured", "-o", "junit", "-S", "none"]),
+            sv(&["test", "-r", &r5, "-t", &tf, "-o", "json"]),
+            sv(&["parse-tree", "-r", &r5]),
+        ];
+        // (console output is compared as a multiset of lines: the order of independent detail lines may vary)
+        let lines = |t: String| {
+            let mut l: Vec<String> = t.lines().map(|x| x.to_string()).collect();
+            l.sort();
+            l.join("\n")
+        };
+        let first: Vec<(String, i32)> = console.iter().map(|a| {
+            let o = cli_inproc(a, "");
+            (lines(format!("{}\u{1}\n{}", o.out, o.err)), o.status())
+        }).collect();
+        mixed_runs += console.len() as u64;
+        let coloured = first.iter().any(|(t, _)| t.contains("\u{1b}["));
+        rep.extra.insert("mixed_history_colours_on".into(), json!(coloured));
+        for sx in &structured {
+            let _ = cli_inproc(sx, "");
+            mixed_runs += 1;
+            for (k, a) in console.iter().enumerate() {
+                let o = cli_inproc(a, "");
+                mixed_runs += 1;
+                let now = (lines(format!("{}\u{1}\n{}", o.out, o.err)), o.status());
+                if now != first[k] {
+                    mixed.violate("mixed-history-in-process", format!("`{}` prints other bytes (or exits {} instead of {}) after `{}` ran in the same process", a.join(" "), now.1, first[k].1, sx.join(" ")), json!({"kind":"cli","argv":a,"stdin":"","expected":"the bytes of the first run in this process","observed":format!("{} bytes instead of {}; colour escapes now: {}", now.0.len(), first[k].0.len(), now.0.contains("\u{1b}[")),"after":sx}));
+                }
+            }
+        }
+    }
     let shim = format!("{}/interpose/getrandom.so", crate::evidence::verif_dir());
     if !std::path::Path::new(&shim).exists() {
         eprintln!("MACHINERY: {} missing (run ./setup.sh)", shim);
@@ -417,6 +480,10 @@ pub fn run(tier: &str) -> i32 {
         }
         rep.extra.insert("output_file_histories".into(), json!(oh));
     }
+    let mut res = res;
+    res.acc.traces += mixed_runs;
+    res.acc = Acc::merge(res.acc, mixed);
+    rep.extra.insert("mixed_history_runs".into(), json!(mixed_runs));
     rep.states = res.acc.traces;
     rep.transitions = res.acc.traces;
     if res.capped {
